@@ -1155,9 +1155,16 @@ class Engine:
         func = env.func if env is not None else None
         cenv = Env(env, func)
         first_it = _MISSING
+        r_ = self._chars_in_comp(e, env, mod, clsctx)
+        if r_ is not None:
+            return r_
+        if getattr(self, '_comp_first', _MISSING) is not _MISSING:
+            first_it = self._comp_first
+            self._comp_first = _MISSING
         if self.comp_handlers:
             # comprehension over an abstract sequence (contracts/worklist)
-            first_it = self.eval(e.generators[0].iter, env, mod, clsctx)
+            if first_it is _MISSING:
+                first_it = self.eval(e.generators[0].iter, env, mod, clsctx)
             h = self.comp_handlers.get(type(force(first_it)))
             if h is not None:
                 r = h(self, force(first_it), e, env, mod, clsctx)
@@ -1197,6 +1204,35 @@ class Engine:
         for k, v in gen(0):
             d = self.dict_set(d, k, v)
         return d
+
+    def _chars_in_comp(self, e, env, mod, clsctx):
+        """``(c in <characters> for c in <symbolic string>)``: kept as a
+        regular-language fact (all()/any() of it is decided by z3) instead
+        of iterating over a string of unknown length."""
+        if not isinstance(e, (ast.GeneratorExp, ast.ListComp)) or \
+                len(e.generators) != 1:
+            return None
+        g = e.generators[0]
+        elt = e.elt
+        if g.ifs or not isinstance(g.target, ast.Name) or not isinstance(
+                elt, ast.Compare) or len(elt.ops) != 1 or not isinstance(
+                    elt.ops[0], (ast.In, ast.NotIn)) or not isinstance(
+                        elt.left, ast.Name) or elt.left.id != g.target.id:
+            return None
+        it = force(self.eval(g.iter, env, mod, clsctx))
+        if not isinstance(it, SStr):
+            # evaluated once already: continue the normal way with the value
+            self._comp_first = it
+            return None
+        chars = force(self.eval(elt.comparators[0], env, mod, clsctx))
+        if isinstance(chars, str):
+            cs = list(chars)
+        elif isinstance(chars, (list, tuple)) and all(
+                isinstance(c, str) and len(c) == 1 for c in chars):
+            cs = list(chars)
+        else:
+            raise Unsupported('iteration over symbolic string')
+        return sym.CharsIn(it, cs, isinstance(elt.ops[0], ast.NotIn))
 
     def format_value(self, v, conversion, spec):
         v = force(v)
